@@ -34,9 +34,11 @@ def main():
     (out / "seeded_demo.py").write_text(demo.read_text())
     env = {"PYTHONPATH": f"{wt}/src"}
     rc_with, o1 = sh(f"cd {wt} && /venv/bin/python seeded_demo.py", env)
-    sh(f"git -C {wt} stash")
+    # (no `git stash`: the stash is shared by all worktrees of a repository)
+    sh(f"git -C {wt} checkout -- src")
     rc_without, o2 = sh(f"cd {wt} && /venv/bin/python seeded_demo.py", env)
-    sh(f"git -C {wt} stash pop")
+    rca, oa = sh(f"git -C {wt} apply {out / 'patch.diff'}")
+    assert rca == 0, oa
     base = "skipped"
     if "--no-baseline" not in sys.argv:
         rcb, ob = sh(f"/tmp/run_baseline_in.sh {wt}")
